@@ -50,7 +50,10 @@ def net_case(torch, seed, mode):
     if unsupported:
         spec = ga.with_unsupported_activation(spec, rng)
         unsupported = 'unsupported-activation' in spec.get('productions', [])
+    if not unsupported and rng.random() < 0.25:
+        spec = ga.with_standalone_bn(spec, rng)      # BatchNorm on the raw input / after an add / after a flatten (not fused)
     o = {'seed': seed, 'mode': mode, 'arch': ga.describe(spec) + ' out=%s' % spec['out'], 'spec': spec, 'skip': None, 'layers': {}, 'fails': []}
+    o['standalone_bn'] = 'standalone-bn' in spec.get('productions', [])
     # topologies that crashed before the C09 repairs (now frozen maskers): kept in the stream, counted
     o['topology'] = 'dw-after-cat' if ga.has_dw_after_cat(spec) else 'add-of-cat' if ga.has_add_of_cat(spec) else 'plain'
     try:
@@ -65,6 +68,16 @@ def net_case(torch, seed, mode):
                 return o
             raise
         p.eval()
+        # the model under test may be a deep copy of a NAS model (snapshot of a search) whose original goes on with
+        # other parameter values: the copy must depend on its own parameters only
+        o['snapshot'] = rng.random() < 0.25
+        if o['snapshot']:
+            import copy
+            orig = p
+            p = copy.deepcopy(orig)
+            for nm, q in orig.named_nas_parameters():
+                if q.requires_grad:
+                    _adv_fill(torch, rng, q, rng.choice(['zero', 'neg', 'adv']))
         for nm, q in p.named_nas_parameters():
             if q.requires_grad:
                 _adv_fill(torch, rng, q, mode)
@@ -180,6 +193,10 @@ def run(ctx):
         for prod in o['spec'].get('productions', []):
             ctx.dist['prod:' + prod] += 1
         ctx.dist['topology:' + o.get('topology', 'plain')] += 1
+        if o.get('standalone_bn'):
+            ctx.dist['net:standalone-batchnorm'] += 1
+        if o.get('snapshot'):
+            ctx.dist['net:deep-copied-snapshot'] += 1
         for key, info in o['fails']:
             fails.append(('net:' + key, {'seed': o['seed'], 'mode': o['mode'], 'arch': o['arch']}, {'detail': info, 'trace': o.get('trace')}))
     ctx.extra['networks'] = len(nets) - skipped
